@@ -317,6 +317,9 @@ int main( int argc, char** argv )
    }
 
    for( const auto& e : es ) {
+      if( prop == "C06" && ( e.name.rfind( "utf16", 0 ) == 0 || e.name.rfind( "utf32", 0 ) == 0 || e.name.rfind( "uint16", 0 ) == 0 || e.name.rfind( "uint32", 0 ) == 0 || e.name.rfind( "uint64", 0 ) == 0 ) ) {
+         continue;  // UTF-16/32 and multi-byte binary rules are excluded from position tracking, as documented
+      }
       const int maxlen = A.thorough() ? e.maxlen_thorough : e.maxlen_quick;
       const std::string& al = e.alphabet;
       bool failed = false;
